@@ -240,9 +240,10 @@ def ownership(R, ch, lg):
             return s
 
         def edge(cond, pol, s, fn, b):
-            c, neg = RU.cond_call(fn, cond)
-            if c is not None and c["id"] == sends[0].node["id"] and s == "sent?" and isinstance(pol, bool):
-                return "owned" if (pol != neg) else "transferred"
+            # the send's verdict tested any way: `if (send())`, `if (send() == AWS_OP_SUCCESS)`, `!= 0`, through `!`
+            t_ = RU.call_test(fn, cond, pol) if isinstance(pol, bool) else None
+            if t_ is not None and t_[0].get("id") == sends[0].node["id"] and s == "sent?":
+                return "owned" if t_[1] == "nonzero" else "transferred"
             return s
 
         ts = Typestate(f, "none", tr, edge)
